@@ -70,6 +70,9 @@ func (r Resp) String() string {
 type Client struct {
 	S       *Server
 	Network uuid.UUID
+	// SendZeroNetwork sends the network header even when Network is the all-zero UUID (which
+	// otherwise means "no header: default network"), so that keto resolves the network id uuid.Nil.
+	SendZeroNetwork bool
 }
 
 func (s *Server) Client() *Client { return &Client{S: s} }
@@ -116,7 +119,7 @@ func (c *Client) DoRaw(api API, method, target string, body []byte, hdr http.Hea
 	for k, v := range hdr {
 		req.Header[k] = v
 	}
-	if c.Network != uuid.Nil {
+	if c.Network != uuid.Nil || c.SendZeroNetwork {
 		req.Header.Set(NetworkHeader, c.Network.String())
 	}
 	rec := httptest.NewRecorder()
@@ -348,7 +351,7 @@ func (c *Client) SyntaxCheck(content []byte) Resp {
 // GCtx returns a context carrying this client's network metadata.
 func (c *Client) GCtx() (context.Context, context.CancelFunc) {
 	ctx, cancel := context.WithCancel(c.S.Ctx)
-	if c.Network != uuid.Nil {
+	if c.Network != uuid.Nil || c.SendZeroNetwork {
 		ctx = metadata.AppendToOutgoingContext(ctx, NetworkHeader, c.Network.String())
 	}
 	return ctx, cancel
